@@ -619,7 +619,19 @@ func (g *SchemaGen) GenSum() *Schema {
 		ref := g.Component(&Schema{Type: "object", Props: props})
 		return ref, ref.Ref
 	}
-	switch r.Intn(7) {
+	switch r.Intn(8) {
+	case 7: // allOf on a primitive: both members bound the same side, exclusive flags on either
+		lo1, lo2 := int64(r.Intn(4)), int64(r.Intn(4))
+		hi1, hi2 := int64(6+r.Intn(4)), int64(6+r.Intn(4))
+		a := &Schema{Type: "integer", MinI: i64p(lo1), MaxI: i64p(hi1), ExclMin: r.Chance(50), ExclMax: r.Chance(50)}
+		b := &Schema{Type: "integer", MinI: i64p(lo2), MaxI: i64p(hi2), ExclMin: r.Chance(50), ExclMax: r.Chance(50)}
+		if r.Chance(30) {
+			b.MinI = nil
+		}
+		if r.Chance(30) {
+			a.MaxI = nil
+		}
+		return g.Component(&Schema{AllOf: []*Schema{a, b}})
 	case 0: // oneOf by type
 		subs := []*Schema{{Type: "string", MinLen: ip(1)}, {Type: "integer", MinI: i64p(0)}}
 		if r.Bool() {
@@ -954,6 +966,25 @@ func (g *SchemaGen) Mutants(s *Schema, v any, depth int) []any {
 		out = append(out, map[string]any{}, "[]")
 	case map[string]any:
 		out = append(out, []any{}, "{}")
+	}
+	if m, ok := v.(map[string]any); ok && len(s.OneOf) >= 2 {
+		// a document that has the members of two variants at once
+		for _, sub := range s.OneOf {
+			if o, ok := g.GenValid(sub, depth); ok {
+				if om, ok := o.(map[string]any); ok {
+					u := map[string]any{}
+					for k, e := range om {
+						u[k] = e
+					}
+					for k, e := range m {
+						u[k] = e
+					}
+					if len(u) > len(m) {
+						out = append(out, u)
+					}
+				}
+			}
+		}
 	}
 	for _, subs := range [][]*Schema{s.OneOf, s.AnyOf, s.AllOf} {
 		for _, sub := range subs {
